@@ -1,7 +1,7 @@
 /-
-For SIMPLE programs (no catch clause, no label, no named function expression): the walk facts (Proofs/ObfFacts.lean) and the
+For SIMPLE programs (no label, no named function expression; catch clauses allowed): the walk facts (Proofs/ObfFacts.lean) and the
 proved invariants of every scope record (`ChainGood`) imply the site conditions `condVal` of the renaming simulation.
-Part 1: what the facts give at a single site, and the hoisting conditions.
+Part 1: what the facts give at a single site, entering a catch clause, and the hoisting conditions.
 -/
 import CalmVerif.Proofs.ObfChainGood
 import CalmVerif.Proofs.ObfBindSim4
@@ -23,19 +23,13 @@ theorem resolveTables_entries : ∀ (C : List Anc) (n : String), resolveTables (
 theorem al_ne_nil {τ : Tau} {E : List Layer} {C : List Anc} (h : Al τ E C) : C ≠ [] := by
   cases h <;> simp
 
-theorem al_head {τ : Tau} {E : List Layer} {C : List Anc} (h : Al τ E C) :
-    ∀ {A : Anc} {C' : List Anc}, C = A :: C' → A.kind = .func ∧ ChainGood (A :: C') := by
-  cases h with
-  | root names A0 hk _ _ hg => intro A C' he; cases he; exact ⟨hk, hg⟩
-  | func p names E0 A0 C0 hk _ _ hg _ _ => intro A C' he; cases he; exact ⟨hk, hg⟩
-
 section
 variable (fin : Final)
 
 /-- the Spec context `ctx` and the scope `mc` a site is registered in belong together -/
 structure Inv (ctx : Ctx) (mc : MCtx) : Prop where
   al : Al (tauFin fin) ctx.env mc.chain
-  head : ∃ L E', ctx.env = L :: E' ∧ L.kind = ctx.varKind ∧ L.scope = ctx.varScope
+  var : varLayer ctx.env = some (ctx.varKind, ctx.varScope)
   chains : lookupChain fin.chains mc.sid = some (entriesOf mc.chain)
 
 variable {fin}
@@ -53,39 +47,17 @@ theorem refSite_refCond {ctx : Ctx} {mc : MCtx} (hi : Inv fin ctx mc) {q : Path}
   have hk : n ∈ ckeys (effRefs mc.chain) := by simpa using h.2
   simpa [refCond] using lookup_link (tauFin fin) hi.al n hk
 
-/-- the innermost record renames its declared names -/
-theorem al_head_decl {τ : Tau} : ∀ {E : List Layer} {C : List Anc}, Al τ E C → ∀ {L : Layer} {E' : List Layer},
-    E = L :: E' → ∀ {n : String}, n ∈ headDecl C → resolveChain C n = tauN τ L.kind L.scope n := by
-  intro E C h
-  cases h with
-  | root names A hk hnames htau hg =>
-    intro L E' he n _
-    cases he
-    rw [resolveChain_single, htau n]
-  | func p names E0 A C0 hk hnames htau hg hC hal =>
-    intro L E' he n hn
-    cases he
-    rw [decl_link_func hk hg hC (by simpa [headDecl] using hn), htau n]
-
 /-- a declaration site is renamed by the variable environment of its context -/
 theorem declSite_eq {ctx : Ctx} {mc : MCtx} (hi : Inv fin ctx mc) {q : Path} {n : String}
     (h : declSite fin mc q n = true) : rhoFin fin q n = tauN (tauFin fin) ctx.varKind ctx.varScope n := by
   simp only [declSite, Bool.and_eq_true, beq_iff_eq] at h
-  obtain ⟨L, E', he, hk, hs⟩ := hi.head
-  rw [rho_at hi h.1, al_head_decl hi.al he (by simpa using h.2), hk, hs]
+  rw [rho_at hi h.1]
+  exact (decl_link hi.al hi.var h.2).1
 
 theorem declSite_refKey {ctx : Ctx} {mc : MCtx} (hi : Inv fin ctx mc) {q : Path} {n : String}
     (h : declSite fin mc q n = true) : n ∈ ckeys (effRefs mc.chain) := by
   simp only [declSite, Bool.and_eq_true] at h
-  have hn : n ∈ headDecl mc.chain := by simpa using h.2
-  have hal := hi.al
-  cases hc : mc.chain with
-  | nil => rw [hc] at hn; simp [headDecl] at hn
-  | cons A C =>
-    rw [hc] at hn
-    obtain ⟨hk, hg⟩ := al_head hal hc
-    simp only [effRefs, hk]
-    exact hg.declRefs A (by simp) n (by simpa [headDecl] using hn)
+  exact (decl_link hi.al hi.var h.2).2
 
 theorem declSites_declCond {ctx : Ctx} {mc : MCtx} (hi : Inv fin ctx mc) (p : SPath) (a : String) (v : Val)
     (h : declSites fin mc p a v = true) :
@@ -109,21 +81,114 @@ theorem identSiteFacts_cond {ctx : Ctx} {mc : MCtx} (hi : Inv fin ctx mc) (path 
       simp only [hn] at h ⊢
       simpa using declSite_eq hi h
 
+theorem al_catch_inv {τ : Tau} {p : SPath} {c : String} {E' : List Layer} {C' : List Anc}
+    (h : Al τ ({ kind := .catch, scope := p, names := [c] } :: E') C') :
+    ∃ K C u, C' = K :: C ∧ K.kind = .catch c u ∧ (∀ n, tauN τ .catch p n = applyTable K.remapped n) ∧
+      ChainGood (K :: C) ∧ C ≠ [] ∧ Al τ E' C := by
+  cases h with
+  | «catch» _ _ u _ K C hk htau hg hC hal => exact ⟨K, C, u, rfl, hk, htau, hg, hC, hal⟩
+
+/-- the parameter of a catch clause is renamed by the catch record -/
+theorem catchSite_eq {ctx : Ctx} {mc : MCtx} (hi : Inv fin ctx mc) {p : SPath} {c : String} {E' : List Layer}
+    (he : ctx.env = { kind := .catch, scope := p, names := [c] } :: E') {q : Path} {n : String}
+    (h : catchSite fin mc q n = true) : rhoFin fin q n = tauN (tauFin fin) .catch p n := by
+  simp only [catchSite, Bool.and_eq_true, beq_iff_eq] at h
+  rw [rho_at hi h.1]
+  have hal := hi.al
+  rw [he] at hal
+  obtain ⟨K, C, u, hmc, hk, htau, hg, _, _⟩ := al_catch_inv hal
+  rw [hmc] at h ⊢
+  have h2 : c = n := by simpa [isCatchOf, hk] using h.2
+  obtain ⟨v, _, _, hrv, hav⟩ := resolve_catch hk hg
+  rw [← h2, hrv, htau, hav]
+
+/-- the record of a catch clause: the invariant for the environment extended by the catch record -/
+theorem catchRec_inv (recs : List Rec) (hgood : ∀ R ∈ recs, ChainGood R.chain) {ctx : Ctx} {mc : MCtx}
+    (hi : Inv fin ctx mc) (path : Path) (as : List (String × Val)) (mc' : MCtx)
+    (h : catchRec fin recs mc path as = some mc') :
+    ∃ c, identAttrOf' as = some c ∧
+      Inv fin { ctx with env := { kind := .catch, scope := path.reverse, names := [c] } :: ctx.env } mc' ∧
+      ∃ R K, recs.find? (fun r => r.node == some path) = some R ∧ R.chain = K :: mc.chain ∧
+        mc' = { sid := R.id, chain := K :: mc.chain } ∧ (∃ u, K.kind = .catch c u) ∧
+        identSiteCond (tauFin fin) (rhoFin fin) .catch path.reverse path as = true := by
+  unfold catchRec at h
+  cases hc : identAttrOf' as with
+  | none => rw [hc] at h; cases h
+  | some c =>
+    rw [hc] at h
+    simp only at h
+    cases hR : recs.find? (fun r => r.node == some path) with
+    | none => rw [hR] at h; cases h
+    | some R =>
+      rw [hR] at h
+      simp only at h
+      cases hRC : R.chain with
+      | nil => rw [hRC] at h; cases h
+      | cons K C =>
+        rw [hRC] at h
+        simp only at h
+        by_cases hall : catchFacts fin mc path c R.id K C = true
+        · rw [if_pos hall] at h
+          simp only [Option.some.injEq] at h
+          subst h
+          simp only [catchFacts, Bool.and_eq_true] at hall
+          obtain ⟨⟨⟨⟨hC0, hK0⟩, htab0⟩, hch0⟩, hid0⟩ := hall
+          have hid : lookupPath fin.identifiers (("identifier", 0) :: path) = some R.id := of_decide_eq_true hid0
+          have hC : C = mc.chain := of_decide_eq_true hC0
+          have htab : ((tablesOfNode fin path.reverse).headD (true, [])).2 = K.remapped := of_decide_eq_true htab0
+          have hch : lookupChain fin.chains R.id = some (entriesOf (K :: C)) := of_decide_eq_true hch0
+          have hK : ∃ u, K.kind = .catch c u := by
+            unfold isCatchOf at hK0
+            cases hk : K.kind with
+            | func => rw [hk] at hK0; cases hK0
+            | «catch» sym u =>
+              rw [hk] at hK0
+              have : sym = c := by simpa using hK0
+              exact ⟨u, by rw [this]⟩
+          obtain ⟨u, hk⟩ := hK
+          have hg : ChainGood (K :: C) := hRC ▸ hgood R (List.mem_of_find?_eq_some hR)
+          subst hC
+          have htau : ∀ n, tauN (tauFin fin) .catch path.reverse n = applyTable K.remapped n := by
+            intro n
+            have e : tauN (tauFin fin) .catch path.reverse n
+                = applyTable ((tablesOfNode fin path.reverse).headD (true, [])).2 n := rfl
+            rw [e, htab]
+          refine ⟨c, rfl, ⟨?_, ?_, hch⟩, R, K, rfl, hRC, rfl, ⟨u, hk⟩, ?_⟩
+          rotate_left 2
+          · unfold identSiteCond
+            unfold identAttrOf' at hc
+            cases hv : sLookup as "identifier" with
+            | none => rfl
+            | some v =>
+              rw [hv] at hc
+              simp only [Option.bind_some] at hc
+              simp only [hc, beq_iff_eq]
+              obtain ⟨w, _, _, hrv, hav⟩ := resolve_catch hk hg
+              simp only [rhoFin, hid, hch, resolveTables_entries]
+              rw [hrv, htau, hav]
+          · exact .catch path.reverse c u ctx.env K mc.chain hk htau hg (al_ne_nil hi.al) hi.al
+          · simp only [varLayer, beq_self_eq_true, if_true]
+            exact hi.var
+        · rw [if_neg hall] at h; cases h
+
 /-! ### hoisting -/
 
+variable (recs : List Rec) (hgood : ∀ R ∈ recs, ChainGood R.chain)
+include hgood
+
 mutual
-  theorem hoistFacts_cond {ctx : Ctx} {mc : MCtx} (hi : Inv fin ctx mc) : ∀ (path : Path) (v : Val),
-      hoistFacts fin mc path v = true →
+  theorem hoistFacts_cond : ∀ (ctx : Ctx) (mc : MCtx) (path : Path) (v : Val), Inv fin ctx mc →
+      hoistFacts fin recs mc path v = true →
       hoistCond (tauFin fin) (rhoFin fin) ctx.varKind ctx.varScope path v = true
-    | _, .none, _ => rfl
-    | _, .bool _, _ => rfl
-    | _, .int _, _ => rfl
-    | _, .str _, _ => rfl
-    | path, .list xs, h => by
+    | _, _, _, .none, _, _ => rfl
+    | _, _, _, .bool _, _, _ => rfl
+    | _, _, _, .int _, _, _ => rfl
+    | _, _, _, .str _, _, _ => rfl
+    | ctx, mc, path, .list xs, hi, h => by
       simp only [hoistFacts] at h
       simp only [hoistCond]
-      exact hoistFactsList_cond hi path "" 0 xs h
-    | path, .node k as, h => by
+      exact hoistFactsList_cond ctx mc path "" 0 xs hi h
+    | ctx, mc, path, .node k as, hi, h => by
       simp only [hoistFacts] at h
       simp only [hoistCond]
       by_cases hf : (k == "FuncDecl") = true
@@ -132,71 +197,84 @@ mutual
       · simp only [hf, Bool.false_eq_true, if_false] at h ⊢
         by_cases hfk : isFunctionKind k = true
         · simp [hfk]
-        · simp only [hfk, Bool.false_eq_true, if_false, Bool.and_eq_true] at h ⊢
-          refine ⟨?_, hoistFactsAttrs_cond hi path as h.2⟩
-          by_cases hvd : isVarDeclKind k = true
-          · simp only [hvd, if_true] at h ⊢
-            exact identSiteFacts_cond hi path as h.1
-          · simp [hvd]
-  theorem hoistFactsList_cond {ctx : Ctx} {mc : MCtx} (hi : Inv fin ctx mc) : ∀ (path : Path) (a : String) (i : Nat)
-      (xs : List Val), hoistFactsList fin mc path a i xs = true →
+        · simp only [hfk, Bool.false_eq_true, if_false] at h ⊢
+          by_cases hc : (k == "Catch") = true
+          · simp only [hc, if_true] at h
+            have hkc : k = "Catch" := by simpa using hc
+            have hvd : isVarDeclKind k = false := by rw [hkc]; decide
+            simp only [hvd, Bool.false_eq_true, if_false, Bool.true_and]
+            cases hr : catchRec fin recs mc path as with
+            | none => rw [hr] at h; cases h
+            | some mc' =>
+              rw [hr] at h
+              simp only at h
+              obtain ⟨c, _, hinv, _⟩ := catchRec_inv recs hgood hi path as mc' hr
+              exact hoistFactsAttrs_cond { ctx with env := _ :: ctx.env } mc' path as hinv h
+          · simp only [hc, Bool.false_eq_true, if_false, Bool.and_eq_true] at h ⊢
+            refine ⟨?_, hoistFactsAttrs_cond ctx mc path as hi h.2⟩
+            by_cases hvd : isVarDeclKind k = true
+            · simp only [hvd, if_true] at h ⊢
+              exact identSiteFacts_cond hi path as h.1
+            · simp [hvd]
+  theorem hoistFactsList_cond : ∀ (ctx : Ctx) (mc : MCtx) (path : Path) (a : String) (i : Nat)
+      (xs : List Val), Inv fin ctx mc → hoistFactsList fin recs mc path a i xs = true →
       hoistCondList (tauFin fin) (rhoFin fin) ctx.varKind ctx.varScope path a i xs = true
-    | _, _, _, [], _ => rfl
-    | path, a, i, v :: rest, h => by
+    | _, _, _, _, _, [], _, _ => rfl
+    | ctx, mc, path, a, i, v :: rest, hi, h => by
       simp only [hoistFactsList, Bool.and_eq_true] at h
       simp only [hoistCondList, Bool.and_eq_true]
-      exact ⟨hoistFacts_cond hi _ v h.1, hoistFactsList_cond hi path a (i + 1) rest h.2⟩
-  theorem hoistFactsAttrs_cond {ctx : Ctx} {mc : MCtx} (hi : Inv fin ctx mc) : ∀ (path : Path)
-      (as : List (String × Val)), hoistFactsAttrs fin mc path as = true →
+      exact ⟨hoistFacts_cond ctx mc _ v hi h.1, hoistFactsList_cond ctx mc path a (i + 1) rest hi h.2⟩
+  theorem hoistFactsAttrs_cond : ∀ (ctx : Ctx) (mc : MCtx) (path : Path)
+      (as : List (String × Val)), Inv fin ctx mc → hoistFactsAttrs fin recs mc path as = true →
       hoistCondAttrs (tauFin fin) (rhoFin fin) ctx.varKind ctx.varScope path as = true
-    | _, [], _ => rfl
-    | path, (a, .list xs) :: rest, h => by
+    | _, _, _, [], _, _ => rfl
+    | ctx, mc, path, (a, .list xs) :: rest, hi, h => by
       rw [hoistFactsAttrs.eq_2, Bool.and_eq_true] at h
       rw [hoistCondAttrs.eq_2, Bool.and_eq_true]
-      refine ⟨?_, hoistFactsAttrs_cond hi path rest h.2⟩
+      refine ⟨?_, hoistFactsAttrs_cond ctx mc path rest hi h.2⟩
       by_cases hm : Val.isMeta a = true
       · simp [hm]
       · simp only [hm, Bool.false_eq_true, if_false] at h ⊢
-        exact hoistFactsList_cond hi path a 0 xs h.1
-    | path, (a, .none) :: rest, h => by
-      rw [hoistFactsAttrs.eq_3 _ _ _ _ _ _ (fun _ hx => by cases hx), Bool.and_eq_true] at h
+        exact hoistFactsList_cond ctx mc path a 0 xs hi h.1
+    | ctx, mc, path, (a, .none) :: rest, hi, h => by
+      rw [hoistFactsAttrs.eq_3 _ _ _ _ _ _ _ (fun _ hx => by cases hx), Bool.and_eq_true] at h
       rw [hoistCondAttrs.eq_3 _ _ _ _ _ _ _ _ (fun _ hx => by cases hx), Bool.and_eq_true]
-      exact ⟨by simp [hoistCond], hoistFactsAttrs_cond hi path rest h.2⟩
-    | path, (a, .bool b) :: rest, h => by
-      rw [hoistFactsAttrs.eq_3 _ _ _ _ _ _ (fun _ hx => by cases hx), Bool.and_eq_true] at h
+      exact ⟨by simp [hoistCond], hoistFactsAttrs_cond ctx mc path rest hi h.2⟩
+    | ctx, mc, path, (a, .bool b) :: rest, hi, h => by
+      rw [hoistFactsAttrs.eq_3 _ _ _ _ _ _ _ (fun _ hx => by cases hx), Bool.and_eq_true] at h
       rw [hoistCondAttrs.eq_3 _ _ _ _ _ _ _ _ (fun _ hx => by cases hx), Bool.and_eq_true]
-      exact ⟨by simp [hoistCond], hoistFactsAttrs_cond hi path rest h.2⟩
-    | path, (a, .int n) :: rest, h => by
-      rw [hoistFactsAttrs.eq_3 _ _ _ _ _ _ (fun _ hx => by cases hx), Bool.and_eq_true] at h
+      exact ⟨by simp [hoistCond], hoistFactsAttrs_cond ctx mc path rest hi h.2⟩
+    | ctx, mc, path, (a, .int n) :: rest, hi, h => by
+      rw [hoistFactsAttrs.eq_3 _ _ _ _ _ _ _ (fun _ hx => by cases hx), Bool.and_eq_true] at h
       rw [hoistCondAttrs.eq_3 _ _ _ _ _ _ _ _ (fun _ hx => by cases hx), Bool.and_eq_true]
-      exact ⟨by simp [hoistCond], hoistFactsAttrs_cond hi path rest h.2⟩
-    | path, (a, .str t) :: rest, h => by
-      rw [hoistFactsAttrs.eq_3 _ _ _ _ _ _ (fun _ hx => by cases hx), Bool.and_eq_true] at h
+      exact ⟨by simp [hoistCond], hoistFactsAttrs_cond ctx mc path rest hi h.2⟩
+    | ctx, mc, path, (a, .str t) :: rest, hi, h => by
+      rw [hoistFactsAttrs.eq_3 _ _ _ _ _ _ _ (fun _ hx => by cases hx), Bool.and_eq_true] at h
       rw [hoistCondAttrs.eq_3 _ _ _ _ _ _ _ _ (fun _ hx => by cases hx), Bool.and_eq_true]
-      exact ⟨by simp [hoistCond], hoistFactsAttrs_cond hi path rest h.2⟩
-    | path, (a, .node k2 as2) :: rest, h => by
-      rw [hoistFactsAttrs.eq_3 _ _ _ _ _ _ (fun _ hx => by cases hx), Bool.and_eq_true] at h
+      exact ⟨by simp [hoistCond], hoistFactsAttrs_cond ctx mc path rest hi h.2⟩
+    | ctx, mc, path, (a, .node k2 as2) :: rest, hi, h => by
+      rw [hoistFactsAttrs.eq_3 _ _ _ _ _ _ _ (fun _ hx => by cases hx), Bool.and_eq_true] at h
       rw [hoistCondAttrs.eq_3 _ _ _ _ _ _ _ _ (fun _ hx => by cases hx), Bool.and_eq_true]
-      refine ⟨?_, hoistFactsAttrs_cond hi path rest h.2⟩
+      refine ⟨?_, hoistFactsAttrs_cond ctx mc path rest hi h.2⟩
       by_cases hm : Val.isMeta a = true
       · simp [hm]
       · simp only [hm, Bool.false_eq_true, if_false] at h ⊢
-        exact hoistFacts_cond hi _ (.node k2 as2) h.1
+        exact hoistFacts_cond ctx mc _ (.node k2 as2) hi h.1
 end
 
 theorem hoistFactsAttr_cond {ctx : Ctx} {mc : MCtx} (hi : Inv fin ctx mc) (path : Path) (a : String) (ov : Option Val)
-    (h : hoistFactsAttr fin mc path a ov = true) :
+    (h : hoistFactsAttr fin recs mc path a ov = true) :
     hoistCondAttr (tauFin fin) (rhoFin fin) ctx.varKind ctx.varScope path a ov = true := by
   cases ov with
   | none => rfl
   | some v =>
     cases v with
-    | list xs => exact hoistFactsList_cond hi path a 0 xs (by simpa [hoistFactsAttr] using h)
+    | list xs => exact hoistFactsList_cond recs hgood ctx mc path a 0 xs hi (by simpa [hoistFactsAttr] using h)
     | none => simp [hoistCondAttr, hoistCond]
     | bool b => simp [hoistCondAttr, hoistCond]
     | int n => simp [hoistCondAttr, hoistCond]
     | str t => simp [hoistCondAttr, hoistCond]
-    | node k as => exact hoistFacts_cond hi _ (.node k as) (by simpa [hoistFactsAttr] using h)
+    | node k as => exact hoistFacts_cond recs hgood ctx mc _ (.node k as) hi (by simpa [hoistFactsAttr] using h)
 
 end
 end CalmVerif.Obf
